@@ -59,6 +59,12 @@ impl RasterBlitter for MaskSuperBlitter {
         x1 -= self.x;
         x2 -= self.x;
         x2 = x2.min(self.width * SCALE);
+        // curve edges are stepped approximately and can stray a little outside of the
+        // bounds of their control points, which is all that we have room for
+        x1 = x1.max(0);
+        if x2 <= x1 {
+            return;
+        }
         let max: u8 = ((1 << (8 - SHIFT)) - (((y & MASK) + 1) >> SHIFT)) as u8;
         let start = (y / 4 * self.width) as usize;
 
@@ -114,6 +120,8 @@ impl RasterBlitter for MaskBlitter {
         }
 
         x2 = x2.min(self.width * SCALE);
+        // see MaskSuperBlitter
+        x1 = x1.max(0);
 
         x1 >>= SHIFT;
         x2 >>= SHIFT;
